@@ -1320,6 +1320,43 @@ Proof.
     + rewrite !(holder_of_upd_other _ b c) by exact Hcb. apply Ho; assumption.
 Qed.
 
+(** ** 13. the sums are the sums over any set of distinct holder addresses *)
+Lemma sum_list_le (f : holder -> N) (l : list addr) : forall (m : fmap addr holder),
+  NoDup l -> sumN (map (getf eqbA f m) l) <= msum f m.
+Proof.
+  induction l as [|a l IH]; intros m HN; cbn [map sumN]; [lia|].
+  inversion HN as [|x l' Hnin Hl]; subst.
+  assert (Hext : map (getf eqbA f m) l = map (getf eqbA f (del eqbA m a)) l).
+  { apply map_ext_in. intros b Hb. unfold getf.
+    rewrite (get_del_other eqbA rw_eqbA_eq) by (intros ->; contradiction). reflexivity. }
+  rewrite Hext. pose proof (IH (del eqbA m a) Hl). pose proof (msum_del eqbA f m a). lia.
+Qed.
+
+(** for every list of distinct addresses, the accrued rewards add up to at most [sum_acc] *)
+Theorem holders_sum_le r l : NoDup l -> sumN (map (acc r) l) <= sum_acc r.
+Proof.
+  intros HN. pose proof (sum_list_le (hacc (rw_gi r)) l (rw_holders r) HN) as H.
+  assert (Hext : map (acc r) l = map (getf eqbA (hacc (rw_gi r)) (rw_holders r)) l).
+  { apply map_ext. intros a. unfold acc, holder_of. rewrite getf_hacc. reflexivity. }
+  rewrite Hext. exact H.
+Qed.
+
+Lemma whole_sum_le (f : addr -> N) l : sumN (map (fun a => f a / D) l) * D <= sumN (map f l).
+Proof.
+  induction l as [|a l IH]; cbn [map sumN]; [lia|].
+  rewrite N.mul_add_distr_r. pose proof (div_D_mul_le (f a)). lia.
+Qed.
+
+(** the whole-unit amounts claimable by any set of distinct holders never exceed the recorded
+    reward balance *)
+Theorem claimable_sum_le r l :
+  RCore r -> NoDup l -> sumN (map (fun a => acc r a / D) l) <= rw_prev r.
+Proof.
+  intros (H1 & _) HN. pose proof (holders_sum_le r l HN) as Hs.
+  pose proof (whole_sum_le (acc r) l) as Hw.
+  apply (N.mul_le_mono_pos_r _ _ D D_pos). lia.
+Qed.
+
 (** * PART 3 — non-vacuity: concrete states satisfying the hypotheses used above *)
 Definition hub_ex : hub :=
   mkHub (mkHubConfig 10 10 (Some A_disp) (Some A_reg) (Some A_bsei) (Some A_stsei) None (Some A_reward))
@@ -1355,31 +1392,59 @@ Example claim_nonvacuous :
 Proof. split; [vm_compute; reflexivity | split; vm_compute; reflexivity]. Qed.
 
 (** a five-step contract-level trace: two increases, a delivery, an index update, a claim *)
-Example creach_nonvacuous :
-  exists r bank g,
-    creach (cinit 10 A_hub uusd A_swap [uatom] 0) (r, bank, g) /\
-    E1c (r, bank, g) /\
-    g_delivered g = 10 /\ g_claimed g = 4 /\ g_updates g = 1 /\ bank = 6 /\ rw_prev r = 6 /\
-    rw_total r = 7 /\ dust r = 3.
+Definition cexec (c : cstate) (w : world) (self s : addr) (m : reward_msg) : cstate :=
+  let '(r, bank, g) := c in
+  match reward_execute w r self s m with
+  | Some (r', _) =>
+      (r', bank - payout_of r s m,
+       mkGhost (g_delivered g) (g_claimed g + payout_of r s m) (g_updates g + effective_update r m))
+  | None => c
+  end.
+Definition cdeliver (c : cstate) (x : N) : cstate :=
+  let '(r, bank, g) := c in (r, bank + x, mkGhost (g_delivered g + x) (g_claimed g) (g_updates g)).
+
+Lemma cexec_step c w self s m :
+  bal (w_env w) self (rw_denom (fst (fst c))) = snd (fst c) ->
+  is_some (reward_execute w (fst (fst c)) self s m) = true ->
+  cstep c (cexec c w self s m).
 Proof.
-  do 3 eexists. split.
-  - eapply CR_step.
-    + eapply CR_step.
-      * eapply CR_step.
-        -- eapply CR_step.
-           ++ eapply CR_step.
-              ** apply CR_init.
-              ** split; le_compute.
-              ** eapply (CS_exec _ _ _ (w_ex 0) A_reward A_bsei (RInc 20 3)); vm_compute; reflexivity.
-           ++ split; le_compute.
-           ++ eapply (CS_exec _ _ _ (w_ex 0) A_reward A_bsei (RInc 21 4)); vm_compute; reflexivity.
-        -- split; le_compute.
-        -- apply (CS_deliver _ _ _ 10).
-      * split; le_compute.
-      * eapply (CS_exec _ _ _ (w_ex 10) A_reward A_disp RUpdateIndex); vm_compute; reflexivity.
-    + split; le_compute.
-    + eapply (CS_exec _ _ _ (w_ex 10) A_reward 20 (RClaim None)); vm_compute; reflexivity.
-  - vm_compute. repeat split; intro X; discriminate X.
+  destruct c as [[r bank] g]. cbn [fst snd cexec]. intros Hb Hs.
+  destruct (reward_execute w r self s m) as [[r' out]|] eqn:E; [|discriminate Hs].
+  eapply CS_exec; eauto.
+Qed.
+
+Lemma cdeliver_step c x : cstep c (cdeliver c x).
+Proof. destruct c as [[r bank] g]. apply CS_deliver. Qed.
+
+Definition c_ex0 : cstate := cinit 10 A_hub uusd A_swap [uatom] 0.
+Definition c_ex1 : cstate := cexec c_ex0 (w_ex 0) A_reward A_bsei (RInc 20 3).
+Definition c_ex2 : cstate := cexec c_ex1 (w_ex 0) A_reward A_bsei (RInc 21 4).
+Definition c_ex3 : cstate := cdeliver c_ex2 10.
+Definition c_ex4 : cstate := cexec c_ex3 (w_ex 10) A_reward A_disp RUpdateIndex.
+Definition c_ex5 : cstate := cexec c_ex4 (w_ex 10) A_reward 20 (RClaim None).
+
+Ltac e1c_compute := vm_compute; split; let X := fresh "X" in intro X; discriminate X.
+
+Example creach_nonvacuous :
+  creach c_ex0 c_ex5 /\ E1c c_ex5 /\
+  g_delivered (snd c_ex5) = 10 /\ g_claimed (snd c_ex5) = 4 /\ g_updates (snd c_ex5) = 1 /\
+  snd (fst c_ex5) = 6 /\ rw_prev (fst (fst c_ex5)) = 6 /\ rw_total (fst (fst c_ex5)) = 7 /\
+  dust (fst (fst c_ex5)) = 3.
+Proof.
+  split.
+  - apply (CR_step _ c_ex4); [apply (CR_step _ c_ex3); [apply (CR_step _ c_ex2);
+      [apply (CR_step _ c_ex1); [apply (CR_step _ c_ex0); [apply CR_init| |]| |]| |]| |]| |].
+    + e1c_compute.
+    + apply cexec_step; vm_compute; reflexivity.
+    + e1c_compute.
+    + apply cexec_step; vm_compute; reflexivity.
+    + e1c_compute.
+    + apply cdeliver_step.
+    + e1c_compute.
+    + apply cexec_step; vm_compute; reflexivity.
+    + e1c_compute.
+    + apply cexec_step; vm_compute; reflexivity.
+  - split; [e1c_compute|]. repeat split; vm_compute; reflexivity.
 Qed.
 
 (** (c): an increase for holder 20 and a claim by holder 21 in state [r_ex] *)
@@ -1387,13 +1452,13 @@ Example ops_commute_nonvacuous :
   RCore r_ex /\ holder_op (RInc 20 5) = true /\ holder_op (RClaim None) = true /\
   target A_bsei (RInc 20 5) <> target 21 (RClaim None) /\
   rw_total r_ex + inc_amt (RInc 20 5) + inc_amt (RClaim None) <= U128MAX /\
-  exists r1 r12,
-    reward_execute (w_ex 10) r_ex A_reward A_bsei (RInc 20 5) = Some (r1, []) /\
-    reward_execute (w_ex 10) r1 A_reward 21 (RClaim None) = Some (r12, [MBank 21 [(uusd, 5)]]).
+  reward_execute (w_ex 10) r_ex A_reward A_bsei (RInc 20 5) = Some (inc_state r_ex 20 5, []) /\
+  reward_execute (w_ex 10) (inc_state r_ex 20 5) A_reward 21 (RClaim None)
+    = Some (claim_state (inc_state r_ex 20 5) 21, [MBank 21 [(uusd, 5)]]).
 Proof.
-  split; [apply rinv_nonvacuous|]. split; [reflexivity|]. split; [reflexivity|].
+  split; [exact (proj1 (proj1 rinv_nonvacuous))|]. split; [reflexivity|]. split; [reflexivity|].
   split; [intro X; discriminate X|]. split; [le_compute|].
-  do 2 eexists. split; vm_compute; reflexivity.
+  split; vm_compute; reflexivity.
 Qed.
 
 (** (d): 7 bSei in account 20, against 3 + 4 bSei in accounts 30 and 31 *)
